@@ -313,11 +313,26 @@ func (s c10scn) run() (req, obs string) {
 	// connection racing in the caller's select is C09's business, not this check's)
 	settle := func() {
 		for _, cl := range callers {
+			wait := 3 * time.Millisecond
+			if id, err := strconv.ParseUint(strings.TrimPrefix(cl.id, "sd"), 10, 32); err == nil && cl.id != "" {
+				// the read loop has taken this caller's entry out of the await map: its reply is on the way to it
+				// (or, for a truncated reply, will never come: do not wait long)
+				c.awaitMu.Lock()
+				_, still := c.awaiting[messageID(id)]
+				c.awaitMu.Unlock()
+				if !still {
+					wait = 40 * time.Millisecond
+				}
+			}
 			select {
 			case <-cl.done:
-			case <-time.After(3 * time.Millisecond):
+			case <-time.After(wait):
 			}
 		}
+	}
+	rwait := 1500 * time.Millisecond
+	if s.timeoutMs > 0 {
+		rwait = time.Duration(s.timeoutMs) * time.Millisecond * 2 / 5
 	}
 	for _, op := range s.ops {
 		switch op.kind {
@@ -396,7 +411,7 @@ func (s c10scn) run() (req, obs string) {
 					regs = append(regs, fmt.Sprintf("%d@%d", f.id, pos))
 				}
 			case <-connDone:
-			case <-time.After(150 * time.Millisecond):
+			case <-time.After(rwait):
 			}
 			if pending != nil && pending.id == "" {
 				nfake++
